@@ -284,6 +284,9 @@ func c03(r *eng.Run) {
 	for _, d := range relatedNameDocs() {
 		one(d, "related-member-names")
 	}
+	for _, d := range shortStringPairDocs() {
+		one(d, "short-string-pairs")
+	}
 	// the shared hard-number and hard-string pools in every value position
 	hn := hardNumbers()
 	eng.Parallel(len(hn), func(i int) {
